@@ -64,7 +64,7 @@ def get (t : Tensor α) (idx : List Nat) : Option α :=
   if valid t.shape idx then t.data[flat t.shape idx]? else none
 
 /-- `get` with a default (the default is never observed on valid indices of well-formed tensors:
-`Lemmas.Tensor.val_eq_of_get`) -/
+`Tensor.get_eq_some_val` in `Lemmas/Tensor.lean`) -/
 def val [Inhabited α] (t : Tensor α) (idx : List Nat) : α := (t.get idx).getD default
 
 /-- tabulate: the tensor of the given shape with `result[idx] = f idx` (indices enumerated in C order,
